@@ -55,6 +55,7 @@ def _strip_docstrings(node):
 # ------------------------------------------------------------------------------------------------------
 Q, NAT, B, STR, NONE, PROJ = "Q", "Nat", "B", "Str", "None", "Proj"
 INST, PROFILE, SATCLASS, SAT, KW = "Inst", "Profile", "SatClass", "Sat", "Kw"
+QX, NEGQX, GROUPSAT, TIEBREAK = "Qx", "NegQx", "GroupSat", "TieBreak"     # extended rationals (inf), their negation
 
 
 class TV:
@@ -151,6 +152,8 @@ def join(a, b):
         return b if is_opt(b) else Opt(b)
     if b == NONE:
         return a if is_opt(a) else Opt(a)
+    if isinstance(a, str) and isinstance(b, str) and QX in (a, b) and a in (Q, QX, NAT, B) and b in (Q, QX, NAT, B):
+        return QX
     if is_opt(a) and not is_opt(b):
         return a if same(a[1], b) else None
     if is_opt(b) and not is_opt(a):
@@ -166,7 +169,8 @@ def gty(t):
         return "py_alloc"
     if isinstance(t, str):
         g = {Q: "Q", NAT: "nat", B: "bool", STR: "string", PROJ: "proj", INST: "inst", PROFILE: "(py_cprofile SC)",
-             SATCLASS: "SC", SAT: "((py_alloc -> Q) * nat)%type", KW: "(py_kwargs X)", NONE: "unit"}.get(t)
+             SATCLASS: "SC", SAT: "((py_alloc -> Q) * nat)%type", KW: "(py_kwargs X)", NONE: "unit",
+             QX: "Qx", GROUPSAT: "(proj -> Q)", TIEBREAK: "(proj -> Q)"}.get(t)
         if g is None:
             raise Unsupported("no Gallina type for %s" % t)
         return g
@@ -355,7 +359,7 @@ def _has_exit(stmts, loop_level=True):
     return False
 
 
-MUTATORS = ("append", "extend")
+MUTATORS = ("append", "extend", "remove")
 
 
 def _root_name(n):
@@ -437,6 +441,7 @@ class Translator:
         self.uses_fuel = False
         self.params = []
         self.nils = []
+        self.module_names = set()
 
     # ---------------- bookkeeping ----------------
     def snapshot(self):
@@ -604,6 +609,8 @@ class Translator:
             raise Unsupported("a possibly-None value where %r is needed" % (t,))
         if t == Q and vt in (NAT, B):
             return self.num(v)
+        if t == QX and vt in (Q, NAT, B):
+            return V("(Fin %s)" % self.num(v).term, QX)
         if same(vt, t):
             return v
         raise Unsupported("type mismatch: %r where %r is expected" % (vt, t))
@@ -624,6 +631,8 @@ class Translator:
     def e_Name(self, n, env):
         if n.id in env:
             return env[n.id]
+        if n.id == "inf" and "inf" in self.module_names:        # from math import inf
+            return V("PInf", QX)
         raise Unsupported("unknown name %s (or a name that is not defined on every path)" % n.id)
 
     def e_Constant(self, n, env):
@@ -645,7 +654,16 @@ class Translator:
         o = self.unwrap(self.expr(n.value, env), "AttributeError")
         if res(o.ty) == INST and n.attr == "budget_limit":
             return V("(budget %s)" % o.term, Q)
+        if res(o.ty) == PROJ and n.attr == "cost":
+            # the projects handed around are the instance's own objects
+            return V("(py_cost %s %s)" % (self.the_instance(env).term, o.term), Q)
         raise Unsupported("attribute .%s of a %r" % (n.attr, res(o.ty)))
+
+    def the_instance(self, env):
+        c = [v for k, v in env.items() if not k.startswith("$") and res(v.ty) == INST and v.extra.get("param")]
+        if len(c) != 1:
+            raise Unsupported("project.cost / total_cost needs the caller's (unmodified) instance")
+        return c[0]
 
     def e_UnaryOp(self, n, env):
         if isinstance(n.op, ast.Not):
@@ -654,8 +672,11 @@ class Translator:
                 return V("false" if b.const else "true", B, const=not b.const, has_const=True)
             return V("(negb %s)" % b.term, B)
         o = self.expr(n.operand, env)
+        if isinstance(n.op, ast.USub) and res(o.ty) == QX:
+            return V(o.term, NEGQX)            # only ever used as a sort key: compared in reverse
         if isinstance(n.op, ast.USub):
-            return V("(- %s)" % self.num(o).term, Q)
+            x = self.num(o)
+            return V("(- %s)" % x.term, Q, extra={"neg_of": x})
         if isinstance(n.op, ast.UAdd):
             return self.num(o)
         raise Unsupported("unary operator")
@@ -849,7 +870,11 @@ class Translator:
                     oid = self.new_obj(FRESH, sources=[o for o in (a_none.oid, a_some.oid) if o])
                 return V("match %s with None => %s | Some %s => %s end" % (
                     x.term, self.coerce(a_none, t).term, b, self.coerce(a_some, t).term), t, oid)
-            a, b = self.expr(n.body, env), self.expr(n.orelse, env)
+            ft, ff = self.nonzero_facts(n.test)
+            e1, e2 = dict(env), dict(env)
+            e1["$nz"] = set(env.get("$nz", ())) | ft
+            e2["$nz"] = set(env.get("$nz", ())) | ff
+            a, b = self.expr(n.body, e1), self.expr(n.orelse, e2)
         finally:
             self.nohoist -= 1
         t = join(a.ty, b.ty)
@@ -905,8 +930,9 @@ class Translator:
         if is_object(v.ty) and container.oid is not None:
             v.oid = self.new_obj(FRESH)
             self.objs[v.oid].elem_src.add(container.oid)
+        v.extra = dict(v.extra)
+        v.extra["elem_of_term"] = container.term
         if isinstance(iter_node, ast.Name):
-            v.extra = dict(v.extra)
             v.extra["elem_of"] = iter_node.id
         return v
 
@@ -1001,12 +1027,41 @@ class Translator:
         vs = [self.expr(x, env) for x in n.elts]
         if len(vs) == 1:            # (x,) is only ever used as a one-element sequence
             return V("[%s]" % vs[0].term, List(vs[0].ty), self.new_obj(FRESH), extra={"elems": vs})
-        return V("(" + ", ".join(v.term for v in vs) + ")", Tup(*[v.ty for v in vs]))
+        return V("(" + ", ".join(v.term for v in vs) + ")", Tup(*[v.ty for v in vs]), extra={"tuple": vs})
 
     def e_Dict(self, n, env):
         if n.keys:
             raise Unsupported("non-empty dictionary literal")
         return V("py_no_kwargs", KW, self.new_obj(FRESH))
+
+    def e_DictComp(self, n, env):
+        """{x: e(x) for x in xs} / {x: i for i, x in enumerate(xs)}: a finite map on the elements of xs, only ever
+        applied to elements of xs (KeyError is not tracked otherwise: fail closed)"""
+        if len(n.generators) != 1:
+            raise Unsupported("dict comprehension with several `for`")
+        g = n.generators[0]
+        if g.ifs or g.is_async or not isinstance(n.key, ast.Name):
+            raise Unsupported("dict comprehension outside the fragment")
+        it = g.iter
+        if isinstance(g.target, ast.Name) and g.target.id == n.key.id:
+            xs = self.to_list(self.expr(it, env))
+            return V("tt", "Map", extra={"domain": xs.term, "elem": res(xs.ty)[1], "macro": ([n.key.id], n.value, env)})
+        if isinstance(g.target, ast.Tuple) and len(g.target.elts) == 2 and all(isinstance(e, ast.Name) for e in g.target.elts) \
+                and isinstance(it, ast.Call) and isinstance(it.func, ast.Name) and it.func.id == "enumerate" \
+                and len(it.args) == 1 and not it.keywords and g.target.elts[1].id == n.key.id \
+                and isinstance(n.value, ast.Name) and n.value.id == g.target.elts[0].id:
+            xs = self.to_list(self.expr(it.args[0], env))
+            if not same(xs.ty, ALLOC):
+                raise Unsupported("rank dictionary of something that is not a list of projects")
+            return V("tt", "Map", extra={"domain": xs.term, "elem": PROJ, "rank": True})
+        raise Unsupported("dict comprehension outside the fragment")
+
+    def map_lookup(self, m, a, env):
+        if a.extra.get("elem_of_term") != m.extra["domain"]:
+            raise Unsupported("lookup in a local dictionary with a key that is not known to be in it (KeyError)")
+        if m.extra.get("rank"):
+            return V("(py_last_index_of %s %s)" % (m.extra["domain"], a.term), NAT, extra={"position_in": m.extra["domain"]})
+        return self.apply_macro(m.extra["macro"], [a], env, eager=True)
 
     def e_Lambda(self, n, env):
         a = n.args
@@ -1014,23 +1069,106 @@ class Translator:
             raise Unsupported("lambda signature outside the fragment")
         return V("tt", "Macro", extra={"macro": ([x.arg for x in a.args], n.body, env)})
 
-    def apply_macro(self, m, args, env):
+    def apply_macro(self, m, args, env, eager=False):
         params, body, menv = m
         if len(args) != len(params):
             raise Unsupported("call of a local function with the wrong number of arguments")
         # Python looks the free names of the body up when the function is CALLED: they must still be what they were
-        for x in ast.walk(body):
-            if isinstance(x, ast.Name) and x.id not in params and (x.id in menv or x.id in env):
+        # (the values of a dict comprehension are computed when it is built: no such condition)
+        nodes = [] if eager else [y for st in (body if isinstance(body, list) else [body]) for y in ast.walk(st)]
+        local = {y.id for y in nodes if isinstance(y, ast.Name) and isinstance(y.ctx, ast.Store)}
+        for x in nodes:
+            if isinstance(x, ast.Name) and x.id not in params and x.id not in local and (x.id in menv or x.id in env):
                 a_, b_ = menv.get(x.id), env.get(x.id)
                 if a_ is None or b_ is None or a_.term != b_.term or a_.oid != b_.oid:
                     raise Unsupported("local function whose free name %s changes between its definition and a call" % x.id)
         env2 = dict(menv)
         for p_, a_ in zip(params, args):
             env2[p_] = a_
+        if isinstance(body, list):
+            return self.fun_block(body, env2)
         return self.expr(body, env2)
 
+    def fun_block(self, stmts, env):
+        """a pure local function with assignments, conditionals and returns on every path, as an expression"""
+        rt = [None]
+
+        def go(stmts, env, final):
+            if not stmts:
+                raise Unsupported("local function that can end without return")
+            s, rest = stmts[0], stmts[1:]
+            if _is_doc(s) or isinstance(s, ast.Pass):
+                return go(rest, env, final)
+            if isinstance(s, ast.Return):
+                if s.value is None:
+                    raise Unsupported("return without a value in a local function")
+                v = self.expr(s.value, env)
+                if final is None:
+                    t = v.ty if rt[0] is None else join(rt[0], v.ty)
+                    if t is None:
+                        raise Unsupported("local function returning values of different types")
+                    rt[0] = t
+                    return "?"
+                return self.coerce(v, final).term
+            if isinstance(s, ast.Assign) and len(s.targets) == 1 and isinstance(s.targets[0], ast.Name):
+                v = self.expr(s.value, env)
+                g = self.gname(s.targets[0].id)
+                env2 = dict(env)
+                env2[s.targets[0].id] = v.but(term=g)
+                return "(let %s := %s in %s)" % (g, v.term, go(rest, env2, final))
+            if isinstance(s, ast.If):
+                test, body, orelse = s.test, s.body, s.orelse
+                while isinstance(test, ast.UnaryOp) and isinstance(test.op, ast.Not):
+                    test, body, orelse = test.operand, orelse, body
+                c = self.boolexpr(test, env)
+                ft, ff = self.nonzero_facts(test)
+                e1, e2 = dict(env), dict(env)
+                e1["$nz"] = set(env.get("$nz", ())) | ft
+                e2["$nz"] = set(env.get("$nz", ())) | ff
+                if c.has_const:
+                    return go((body if c.const else orelse) + rest, e1 if c.const else e2, final)
+                return "(if %s then %s else %s)" % (c.term, go(body + rest, e1, final), go(orelse + rest, e2, final))
+            raise Unsupported("statement %s in a local function" % type(s).__name__)
+        self.nohoist += 1
+        try:
+            snap = self.snapshot()
+            go(stmts, env, None)
+            self.restore(snap)
+            term = go(stmts, env, rt[0])
+        finally:
+            self.nohoist -= 1
+        return V(term, rt[0])
+
+    @staticmethod
+    def nonzero_facts(test):
+        """expressions known to be non-zero when the test is true / false (guards of frac)"""
+        if isinstance(test, ast.Compare) and len(test.ops) == 1:
+            l, op, r = test.left, test.ops[0], test.comparators[0]
+            zero = lambda x: isinstance(x, ast.Constant) and x.value == 0 and not isinstance(x.value, bool)
+            if zero(r) and isinstance(op, (ast.Gt, ast.Lt, ast.NotEq)):
+                return {ast.unparse(l)}, set()
+            if zero(l) and isinstance(op, (ast.Gt, ast.Lt, ast.NotEq)):
+                return {ast.unparse(r)}, set()
+            if zero(r) and isinstance(op, ast.Eq):
+                return set(), {ast.unparse(l)}
+            if zero(l) and isinstance(op, ast.Eq):
+                return set(), {ast.unparse(r)}
+            if zero(r) and isinstance(op, (ast.LtE, ast.GtE)):       # not (x <= 0)  ->  x > 0
+                return set(), {ast.unparse(l)}
+            if zero(l) and isinstance(op, (ast.LtE, ast.GtE)):
+                return set(), {ast.unparse(r)}
+        if isinstance(test, ast.BoolOp) and isinstance(test.op, ast.And):
+            out = set()
+            for x in test.values:
+                out |= Translator.nonzero_facts(x)[0]
+            return out, set()
+        return set(), set()
+
     def e_Subscript(self, n, env):
-        o = self.unwrap(self.expr(n.value, env))
+        o0 = self.expr(n.value, env)
+        if o0.ty == "Map":
+            return self.map_lookup(o0, self.expr(n.slice, env), env)
+        o = self.unwrap(o0)
         ot = res(o.ty)
         if ot == KW:
             if isinstance(n.slice, ast.Constant) and n.slice.value == "resoluteness":
@@ -1129,8 +1267,14 @@ class Translator:
         if not isinstance(f, ast.Name):
             raise Unsupported("call of a computed function")
         name = f.id
+        if name == "sorted":
+            return self.sorted_call(n, env)
+        if name == "total_cost" and len(n.args) == 1 and not n.keywords:
+            a = self.coerce(self.to_list(self.expr(n.args[0], env)), ALLOC)
+            return V("(py_total_cost %s %s)" % (self.the_instance(env).term, a.term), Q)
         if name in ("BudgetAllocation", "list", "copy", "deepcopy", "dict", "tuple"):
-            if n.keywords:
+            kws = [k for k in n.keywords if not (name == "BudgetAllocation" and k.arg == "details")]
+            if kws:       # BudgetAllocation(x, details=...): the details are not modelled
                 raise Unsupported("keyword arguments in %s(...)" % name)
             if not n.args:
                 if name == "dict":
@@ -1198,18 +1342,96 @@ class Translator:
                 return self.num(args[0])
             if len(args) == 2:
                 d = args[1]
-                if not (d.has_const and isinstance(d.const, int) and not isinstance(d.const, bool) and d.const != 0):
-                    raise Unsupported("frac(a, b) with a denominator that is not a non-zero integer literal")
-                return V("(frac %s %s)" % (self.num(args[0]).term, d.term), Q)
+                if d.has_const and isinstance(d.const, int) and not isinstance(d.const, bool) and d.const != 0:
+                    return V("(frac %s %s)" % (self.num(args[0]).term, d.term), Q)
+                if ast.unparse(n.args[1]) in env.get("$nz", ()):
+                    return V("(frac %s %s)" % (self.num(args[0]).term, self.num(d).term), Q)
+                raise Unsupported("frac(a, b) with a denominator that is not known to be non-zero on this path "
+                                  "(ZeroDivisionError)")
         if name == "bool" and len(n.args) == 1 and not n.keywords:
             return self.boolexpr(n.args[0], env)
         raise Unsupported("call of %s outside the fragment" % name)
+
+    def sorted_call(self, n, env):
+        """sorted(instance) / sorted(xs) by name; sorted(xs, key=lambda p: -k(p)) and
+        sorted(xs, key=lambda p: (-k(p), <position of p in xs>)): decreasing key, stable / position as tie-break"""
+        kws = self.kwargs(n, ("key", "reverse"))
+        rev = False
+        if "reverse" in kws:
+            r_ = self.expr(kws.pop("reverse"), env)
+            if not (r_.has_const and isinstance(r_.const, bool)):
+                raise Unsupported("sorted(..., reverse=<not a constant>)")
+            rev = r_.const
+        if len(n.args) != 1:
+            raise Unsupported("sorted with several positional arguments")
+        a = self.unwrap(self.expr(n.args[0], env))
+        if res(a.ty) == INST:
+            if kws or rev:
+                raise Unsupported("sorted(instance, key=...)")
+            return V("(py_sorted_projects (py_instance_iter %s))" % a.term, ALLOC, self.new_obj(FRESH))
+        xs = self.to_list(a)
+        if not same(xs.ty, ALLOC):
+            raise Unsupported("sorted of a sequence that is not a sequence of projects")
+        if "key" not in kws:
+            if rev:
+                raise Unsupported("sorted(xs, reverse=True) without key")
+            return V("(py_sorted_projects %s)" % xs.term, ALLOC, self.new_obj(FRESH))
+        kf = self.expr(kws["key"], env)
+        if kf.ty != "Macro":
+            raise Unsupported("sort key that is not a lambda / local function")
+        b = self.tmp("p")
+        arg = V(b, PROJ, extra={"elem_of_term": xs.term})
+        self.nohoist += 1
+        try:
+            k = self.apply_macro(kf.extra["macro"], [arg], env)
+        finally:
+            self.nohoist -= 1
+        oid = self.new_obj(FRESH)
+        if rev:
+            # reverse=True keeps the original order among equal keys: the stable sort by DEcreasing key
+            if res(k.ty) in (Q, QX, NAT) and k.extra.get("neg_of") is None:
+                return V("(py_sorted_neg (fun %s => %s) %s)" % (b, self.coerce(k, QX).term, xs.term), ALLOC, oid)
+            raise Unsupported("sorted(..., reverse=True) with a key outside the fragment")
+
+        def as_neg(v):          # -x for a rational x is a decreasing key as well
+            if res(v.ty) == Q and v.extra.get("neg_of") is not None:
+                return V("(Fin %s)" % v.extra["neg_of"].term, NEGQX)
+            return v
+        k = as_neg(k)
+        if k.extra.get("tuple"):
+            k.extra["tuple"] = [as_neg(k.extra["tuple"][0])] + list(k.extra["tuple"][1:])
+        if res(k.ty) == NEGQX:
+            return V("(py_sorted_neg (fun %s => %s) %s)" % (b, k.term, xs.term), ALLOC, oid)
+        parts = k.extra.get("tuple")
+        if parts and len(parts) == 2 and res(parts[0].ty) == NEGQX and res(parts[1].ty) == NAT \
+                and parts[1].extra.get("position_in") == xs.term:
+            return V("(py_sorted_neg_then (fun %s => %s) (fun %s => %s) %s)" % (b, parts[0].term, b, parts[1].term, xs.term),
+                     ALLOC, oid)
+        raise Unsupported("sort key outside the fragment (expected -k(p) or (-k(p), position of p in the sorted list))")
 
     def method_call(self, n, env):
         f = n.func
         o = self.unwrap(self.expr(f.value, env), "AttributeError")
         ot = res(o.ty)
         m = f.attr
+        if ot == GROUPSAT and m == "total_satisfaction_project" and len(n.args) == 1 and not n.keywords:
+            a = self.expr(n.args[0], env)
+            if res(a.ty) != PROJ:
+                raise Unsupported("total_satisfaction_project of something that is not a project")
+            return V("(%s %s)" % (o.term, a.term), Q)
+        if ot == TIEBREAK and m == "order" and len(n.args) == 3 and not n.keywords:
+            i_, p_, l_ = [self.expr(x, env) for x in n.args]
+            if not (res(i_.ty) == INST and i_.extra.get("param") and res(p_.ty) == PROFILE and p_.extra.get("param")):
+                raise Unsupported("tie_breaking.order called on something else than the caller's instance and profile")
+            l_ = self.coerce(self.to_list(l_), ALLOC)
+            return V("(tb_order_of_key %s %s)" % (o.term, l_.term), ALLOC, self.new_obj(FRESH))
+        if is_list(ot) and m == "index" and len(n.args) == 1 and not n.keywords:
+            a = self.expr(n.args[0], env)
+            if res(a.ty) != PROJ or not same(ot, ALLOC):
+                raise Unsupported(".index outside the fragment")
+            if a.extra.get("elem_of_term") != o.term:
+                raise Unsupported(".index(x) of something that is not known to be in the list (ValueError)")
+            return V("(py_index_of %s %s)" % (o.term, a.term), NAT, extra={"position_in": o.term})
         if ot == INST and m == "is_feasible" and len(n.args) == 1 and not n.keywords:
             a = self.coerce(self.unwrap(self.expr(n.args[0], env)), ALLOC)
             return V("(py_is_feasible %s %s)" % (o.term, a.term), B)
@@ -1258,7 +1480,7 @@ class Translator:
         if name == "_" or name not in self.loaded:
             return body_of(env2) if name == "_" or name not in env else body_of({k: x for k, x in env2.items() if k != name})
         simple = v.term.replace("_", "a").replace("'", "a").isalnum()
-        if (simple and not force_let) or res(v.ty) == NONE or v.ty == "Macro":
+        if (simple and not force_let) or res(v.ty) == NONE or v.ty in ("Macro", "Map"):
             env2[name] = v.but()
             return body_of(env2)
         g = self.gname(name)
@@ -1295,11 +1517,12 @@ class Translator:
         if isinstance(s, ast.FunctionDef):
             a = s.args
             body = [x for x in s.body if not _is_doc(x) and not isinstance(x, ast.Pass)]
-            if a.vararg or a.kwarg or a.kwonlyargs or a.defaults or a.posonlyargs or s.decorator_list \
-                    or len(body) != 1 or not isinstance(body[0], ast.Return) or body[0].value is None:
-                raise Unsupported("local function that is not a single return")
+            if a.vararg or a.kwarg or a.kwonlyargs or a.defaults or a.posonlyargs or s.decorator_list or not body:
+                raise Unsupported("local function signature outside the fragment")
             env2 = dict(env)
-            env2[s.name] = V("tt", "Macro", extra={"macro": ([x.arg for x in a.args], body[0].value, env)})
+            if len(body) == 1 and isinstance(body[0], ast.Return) and body[0].value is not None:
+                body = body[0].value
+            env2[s.name] = V("tt", "Macro", extra={"macro": ([x.arg for x in a.args], body, env)})
             return nxt(env2)
         if isinstance(s, ast.AnnAssign):
             if s.value is None:
@@ -1347,11 +1570,14 @@ class Translator:
             raise Unsupported("augmented assignment target outside the fragment")
         if isinstance(s, ast.Expr):
             c = s.value
-            if isinstance(c, ast.Call) and isinstance(c.func, ast.Attribute) and c.func.attr in MUTATORS \
+            if isinstance(c, ast.Call) and isinstance(c.func, ast.Attribute) and c.func.attr in ("append", "extend") \
                     and isinstance(c.func.value, ast.Name):
                 if len(c.args) != 1 or c.keywords:
                     raise Unsupported(".%s with an unexpected argument list" % c.func.attr)
                 return self.extend(c.func.value.id, c.args[0], c.func.attr == "append", env, ctx, nxt, h0)
+            if isinstance(c, ast.Call) and isinstance(c.func, ast.Attribute) and c.func.attr == "remove" \
+                    and isinstance(c.func.value, ast.Name) and len(c.args) == 1 and not c.keywords:
+                return self.remove(c.func.value.id, c.args[0], env, ctx, nxt, h0)
             if isinstance(c, ast.Call) and isinstance(c.func, ast.Name) and c.func.id == "print":
                 return nxt(env)
             self.expr(c, env)         # evaluated for the exceptions it may raise only
@@ -1429,6 +1655,19 @@ class Translator:
                 c = self.objs[x.oid]
                 c.elem = join_origin(c.elem, self.elem_origin_of(a.oid))
         newv = V(("(Some %s)" % term) if was_opt else term, x.ty, x.oid)
+        return self.wrap(ctx, self.mutate(env, x.oid, name, newv, nxt), h0)
+
+    def remove(self, name, arg, env, ctx, nxt, h0):
+        """xs.remove(v): the first occurrence; ValueError when there is none"""
+        if name not in env:
+            raise Unsupported("unknown name %s" % name)
+        x = env[name]
+        l = self.unwrap(x, "AttributeError")
+        a = self.expr(arg, env)
+        if not same(l.ty, ALLOC) or res(a.ty) != PROJ:
+            raise Unsupported(".remove outside the fragment (a project from a list of projects)")
+        b = self.hoist("(py_remove %s %s)" % (l.term, a.term), "ValueError", "rm")
+        newv = V(b, ALLOC, x.oid)
         return self.wrap(ctx, self.mutate(env, x.oid, name, newv, nxt), h0)
 
     def store_item(self, t, value, op, env, ctx, nxt, h0):
@@ -1542,10 +1781,13 @@ class Translator:
         if c.has_const:
             return self.wrap(ctx, self.block(body if c.const else orelse, env, c2), h0)
         n_true, n_false = self.narrow(test)
+        nz = self.nonzero_facts(test)
         pre = []
         envs = []
-        for stmts, names in ((body, n_true), (orelse, n_false)):
+        for k_, (stmts, names) in enumerate(((body, n_true), (orelse, n_false))):
             e, w = dict(env), []
+            if nz[k_]:
+                e["$nz"] = set(env.get("$nz", ())) | nz[k_]
             for nm in sorted(names):
                 if nm in env and is_opt(env[nm].ty) and self.loads(stmts, nm):
                     g = self.gname(nm)
@@ -1806,6 +2048,7 @@ class Translator:
 # ------------------------------------------------------------------------------------------------------
 EXH = "pabutools/rules/exhaustion.py"
 COMP = "pabutools/rules/composition.py"
+GREEDY = "pabutools/rules/greedywelfare/greedywelfare_rule.py"
 
 
 def _sig(mode_t):
@@ -1815,6 +2058,7 @@ def _sig(mode_t):
         "rule": Rule(mode_t), "rule_sequence": List(Rule(mode_t)),
         "initial_budget_allocation": Opt(ALLOC),
         "exhaustive_stop": B, "budget_step": Opt(Q), "budget_bound": Opt(Q),
+        "sat_profile": GROUPSAT, "budget_allocation": ALLOC, "tie_breaking": TIEBREAK,
     }
 
 
@@ -1824,7 +2068,11 @@ TARGETS = [
     (EXH, "exhaustion_by_budget_increase", (True, False), Opt(KW)),
     (COMP, "popularity_comparison", (None,), Opt(List(KW))),
     (COMP, "social_welfare_comparison", (None,), Opt(List(KW))),
+    # the additive fast path of the greedy rule: resolute (the irresolute call is delegated to the general scheme),
+    # analytics switched off (the details object is not modelled)
+    (GREEDY, "greedy_utilitarian_scheme_additive", ("greedy",), None),
 ]
+FLAGS = {"greedy": {"resoluteness": True, "analytics": False}}
 
 
 class Def:
@@ -1836,18 +2084,26 @@ class Def:
 ORIGIN_TERM = {"fresh": "Fresh", "rule": "RuleResult"}
 
 
-def translate_function(node, fname, mode, kw_type):
+def translate_function(node, fname, mode, kw_type, module_names=()):
     """-> (params [(gallina name, gallina type)], body term, result type, alias table)"""
     a = node.args
     if a.vararg or a.kwarg or a.kwonlyargs or a.posonlyargs or node.decorator_list:
         raise Unsupported("signature outside the fragment")
+    fixed = set()
+    if mode in FLAGS:
+        for fl, val in FLAGS[mode].items():
+            if fl not in [x.arg for x in a.args]:
+                raise Unsupported("no parameter `%s`" % fl)
+            node = specialise(node, fl, val)
+            fixed.add(fl)
+        mode = None
     if mode is not None:
         if "resoluteness" not in [x.arg for x in a.args]:
             raise Unsupported("no parameter `resoluteness`")
         node = specialise(node, "resoluteness", mode)
     sig = _sig(ALLOC if mode in (True, None) else List(ALLOC))
     sig["rule_params"] = kw_type
-    pnames = [x.arg for x in node.args.args if not (mode is not None and x.arg == "resoluteness")]
+    pnames = [x.arg for x in node.args.args if not (mode is not None and x.arg == "resoluteness") and x.arg not in fixed]
     defaults = {}
     allp = [x.arg for x in node.args.args]
     for p, d in zip(allp[len(allp) - len(a.defaults):], a.defaults):
@@ -1861,7 +2117,8 @@ def translate_function(node, fname, mode, kw_type):
     for attempt in range(4):
         tr = Translator(fname, mode)
         tr.rtype = rtype
-        tr.loaded = {n.id for n in _walk(node.body) if isinstance(n, ast.Name) and isinstance(n.ctx, ast.Load)}
+        tr.loaded = {n.id for st in node.body for n in ast.walk(st) if isinstance(n, ast.Name) and isinstance(n.ctx, ast.Load)}
+        tr.module_names = set(module_names)
         # names read only through an attribute / subscript / method call count as read as well
         env, gparams = {}, []
         for p in pnames:
@@ -1929,7 +2186,7 @@ class World:
         self.defs = []
         self.errors = []
         trees = {}
-        for rel in (EXH, COMP):
+        for rel in (EXH, COMP, GREEDY):
             try:
                 path = os.path.join(repo, rel)
                 trees[rel] = ast.parse(open(path).read(), filename=path)
@@ -1942,8 +2199,9 @@ class World:
                 if isinstance(n, ast.FunctionDef) and n.name == fname:
                     node = n
             for mode in modes:
-                suffix = {True: "_res", False: "_irr", None: ""}[mode]
+                suffix = {True: "_res", False: "_irr", None: ""}.get(mode, "")
                 d = Def("gen_" + fname + suffix, "")
+                d.rel = rel
                 self.defs.append(d)
                 d.alias_name = "gen_alias_" + fname + suffix
                 if node is None:
@@ -1951,10 +2209,15 @@ class World:
                     d.comment = rel
                     continue
                 d.comment = "%s:%d %s%s\n%s" % (rel, node.lineno, fname,
-                                                  "" if mode is None else " with resoluteness=%s" % mode,
+                                                  "" if mode is None else (" with resoluteness=%s" % mode if mode in (True, False)
+                                                                           else " with " + ", ".join("%s=%s" % kv for kv in FLAGS[mode].items())),
                                                   ast.unparse(_strip_docstrings(node)))
                 try:
-                    d.params, d.body, d.rtype, d.alias = translate_function(node, fname, mode, kwt)
+                    names = set()
+                    for st in trees[rel].body:
+                        if isinstance(st, ast.ImportFrom) and st.module == "math":
+                            names |= {al.asname or al.name for al in st.names}
+                    d.params, d.body, d.rtype, d.alias = translate_function(node, fname, mode, kwt, names)
                     d.rt = gty(d.rtype)
                 except Unsupported as e:
                     d.error = str(e)
@@ -1973,10 +2236,12 @@ class World:
         for e in self.errors:
             L.append("(* SOURCE FILE NOT READABLE: %s *)" % _comment_safe(e))
         failed = []
+        by_file = {EXH: [], COMP: [], GREEDY: []}
         for d in self.defs:
             L.append("(* " + _comment_safe(d.comment) + " *)")
             if d.error is not None:
                 failed.append(d.name)
+                by_file[d.rel].append(d.name)
                 reason = d.error.replace('"', "'").replace("\n", " ")
                 reason = "".join(ch if ch.isascii() else "?" for ch in reason)
                 L.append('Definition %s : py_untranslated := Untranslated "%s".' % (d.name, reason[:300]))
@@ -1989,7 +2254,8 @@ class World:
                 L.append("Definition %s : list py_alias :=\n  [%s]." % (d.alias_name, ";\n   ".join(items)))
             L.append("")
         L.append("End Gen.")
-        L.append("Definition gen_ctrl_untranslated : list string := [%s]." % "; ".join(coq_string(x) for x in failed))
+        for rel, nm in ((EXH, "exhaustion"), (COMP, "composition"), (GREEDY, "greedy")):
+            L.append("Definition gen_untranslated_%s : list string := [%s]." % (nm, "; ".join(coq_string(x) for x in by_file[rel])))
         return "\n".join(L) + "\n"
 
 
